@@ -390,3 +390,66 @@ func (f *lineFilter) Write(p []byte) (int, error) {
 	}
 	return len(p), nil
 }
+
+// ReplayFile re-executes the schedule stored in a violation artefact twice on the current tree,
+// checks that both runs agree, and reports whether the violation reproduces (exit code semantics of a check).
+func ReplayFile(property string, scenarios map[string]*Scenario, path string) int {
+	b, err := os.ReadFile(path)
+	if err != nil {
+		fmt.Fprintln(os.Stderr, err)
+		return 2
+	}
+	var v struct {
+		Key     string
+		Witness struct {
+			Scenario string `json:"scenario"`
+			Param    int    `json:"param"`
+			Choices  []int  `json:"choices"`
+		}
+	}
+	if err := json.Unmarshal(b, &v); err != nil {
+		fmt.Fprintln(os.Stderr, err)
+		return 2
+	}
+	sc := scenarios[v.Witness.Scenario]
+	if sc == nil {
+		fmt.Fprintln(os.Stderr, "unknown scenario", v.Witness.Scenario)
+		return 2
+	}
+	var digests []string
+	found := false
+	for k := 0; k < 2; k++ {
+		r := RunJob(sc, Job{Scenario: sc.Name, Param: v.Witness.Param, Choices: v.Witness.Choices, Replay: true})
+		var ds []string
+		for d := range r.Outcomes {
+			ds = append(ds, d)
+		}
+		sort.Strings(ds)
+		digests = append(digests, strings.Join(ds, ","))
+		if r.Diverged > 0 {
+			fmt.Println("replay diverged: the recorded schedule does not fit the current tree")
+			return 0
+		}
+		for _, vv := range r.Violations {
+			fmt.Printf("replay %d: %s: %s\n", k, vv.Key, vv.What)
+			if vv.Key == v.Key {
+				found = true
+			}
+		}
+		if k == 0 && len(r.Samples) > 0 {
+			if tr, ok := r.Samples[len(r.Samples)-1]["trace"]; ok {
+				fmt.Printf("schedule: %v\n", tr)
+			}
+		}
+	}
+	if digests[0] != digests[1] {
+		fmt.Println("replay is not deterministic (nondeterminism not owned)")
+		return 2
+	}
+	if found {
+		fmt.Printf("VIOLATION property=%s replay=%s\n", property, path)
+		return 1
+	}
+	fmt.Println("violation did not reproduce on the current tree")
+	return 0
+}
